@@ -70,9 +70,13 @@ Definition print_int (z : Z) : chars :=
 Definition int_of_token (t : chars) : option Z :=
   match t with
   | [] => None
-  | "-" :: [] => None
-  | "-" :: ds => match chars_uint ds with Some u => Some (Z.of_int (Decimal.Neg u)) | None => None end
-  | ds => match chars_uint ds with Some u => Some (Z.of_int (Decimal.Pos u)) | None => None end
+  | c :: ds =>
+      if Ascii.eqb c "-" then
+        match ds with
+        | [] => None
+        | _ => match chars_uint ds with Some u => Some (Z.of_int (Decimal.Neg u)) | None => None end
+        end
+      else match chars_uint t with Some u => Some (Z.of_int (Decimal.Pos u)) | None => None end
   end.
 
 (** * JSON values *)
@@ -120,7 +124,7 @@ Fixpoint print (v : json) : chars :=
 
 (** ** Parser *)
 Definition is_numch (c : ascii) : bool :=
-  is_digit c || match c with "-" | "+" | "." | "e" | "E" => true | _ => false end.
+  is_digit c || Ascii.eqb c "-" || Ascii.eqb c "+" || Ascii.eqb c "." || Ascii.eqb c "e" || Ascii.eqb c "E".
 
 Fixpoint span_num (s : chars) : chars * chars :=
   match s with
@@ -145,20 +149,45 @@ Fixpoint parse_str (s : chars) : option (chars * chars) :=
       else match parse_str r with Some (a, b) => Some (c :: a, b) | None => None end
   end.
 
+Fixpoint strip_prefix (p s : chars) : option chars :=
+  match p, s with
+  | [], _ => Some s
+  | a :: p', b :: s' => if Ascii.eqb a b then strip_prefix p' s' else None
+  | _ :: _, [] => None
+  end.
+
+Definition is_c (c d : ascii) : bool := Ascii.eqb c d.
+
+Definition lit_null : chars := s2c "null".
+Definition lit_true : chars := s2c "true".
+Definition lit_false : chars := s2c "false".
+
 Fixpoint parse_val (fuel : nat) (s : chars) {struct fuel} : option (json * chars) :=
   match fuel with
   | O => None
   | S f =>
       match s with
-      | "n" :: "u" :: "l" :: "l" :: r => Some (JNull, r)
-      | "t" :: "r" :: "u" :: "e" :: r => Some (JBool true, r)
-      | "f" :: "a" :: "l" :: "s" :: "e" :: r => Some (JBool false, r)
-      | """" :: r => match parse_str r with Some (a, b) => Some (JStr a, b) | None => None end
-      | "[" :: "]" :: r => Some (JArr [], r)
-      | "[" :: r => match parse_elems f r with Some (l, b) => Some (JArr l, b) | None => None end
-      | "{" :: "}" :: r => Some (JObj [], r)
-      | "{" :: r => match parse_members f r with Some (l, b) => Some (JObj l, b) | None => None end
-      | _ => parse_number s
+      | [] => None
+      | c :: r =>
+          if is_c c "n" then match strip_prefix lit_null s with Some b => Some (JNull, b) | None => None end
+          else if is_c c "t" then match strip_prefix lit_true s with Some b => Some (JBool true, b) | None => None end
+          else if is_c c "f" then match strip_prefix lit_false s with Some b => Some (JBool false, b) | None => None end
+          else if is_c c dq then match parse_str r with Some (a, b) => Some (JStr a, b) | None => None end
+          else if is_c c "[" then
+            match r with
+            | [] => None
+            | c2 :: r2 =>
+                if is_c c2 "]" then Some (JArr [], r2)
+                else match parse_elems f r with Some (l, b) => Some (JArr l, b) | None => None end
+            end
+          else if is_c c "{" then
+            match r with
+            | [] => None
+            | c2 :: r2 =>
+                if is_c c2 "}" then Some (JObj [], r2)
+                else match parse_members f r with Some (l, b) => Some (JObj l, b) | None => None end
+            end
+          else parse_number s
       end
   end
 with parse_elems (fuel : nat) (s : chars) {struct fuel} : option (list json * chars) :=
@@ -166,9 +195,11 @@ with parse_elems (fuel : nat) (s : chars) {struct fuel} : option (list json * ch
   | O => None
   | S f =>
       match parse_val f s with
-      | Some (v, "," :: r) =>
-          match parse_elems f r with Some (l, b) => Some (v :: l, b) | None => None end
-      | Some (v, "]" :: r) => Some ([v], r)
+      | Some (v, c :: r) =>
+          if is_c c "," then
+            match parse_elems f r with Some (l, b) => Some (v :: l, b) | None => None end
+          else if is_c c "]" then Some ([v], r)
+          else None
       | _ => None
       end
   end
@@ -177,18 +208,24 @@ with parse_members (fuel : nat) (s : chars) {struct fuel} : option (list (chars 
   | O => None
   | S f =>
       match s with
-      | """" :: r =>
-          match parse_str r with
-          | Some (k, ":" :: r1) =>
-              match parse_val f r1 with
-              | Some (v, "," :: r2) =>
-                  match parse_members f r2 with Some (l, b) => Some ((k, v) :: l, b) | None => None end
-              | Some (v, "}" :: r2) => Some ([(k, v)], r2)
-              | _ => None
-              end
-          | _ => None
-          end
-      | _ => None
+      | c :: r =>
+          if is_c c dq then
+            match parse_str r with
+            | Some (k, c1 :: r1) =>
+                if is_c c1 ":" then
+                  match parse_val f r1 with
+                  | Some (v, c2 :: r2) =>
+                      if is_c c2 "," then
+                        match parse_members f r2 with Some (l, b) => Some ((k, v) :: l, b) | None => None end
+                      else if is_c c2 "}" then Some ([(k, v)], r2)
+                      else None
+                  | _ => None
+                  end
+                else None
+            | _ => None
+            end
+          else None
+      | [] => None
       end
   end.
 
@@ -363,6 +400,7 @@ Definition chars_eqb (a b : chars) : bool := String.eqb (c2s a) (c2s b).
 Definition mem_name (n : string) (t : list (string * Z)) : bool :=
   existsb (fun p => String.eqb (fst p) n) t.
 
+Definition sdo_ok (z : Z) : bool := ((0 <=? z) && (z <=? 4095))%Z.
 Definition rng_u (bits z : Z) : bool := in_u bits z.
 Definition rng_i (bits z : Z) : bool := in_i bits z.
 
@@ -491,27 +529,16 @@ Definition as_arr (v : json) : option (list json) :=
 Definition nil_end {A B} (l : list A) (x : B) : option B :=
   match l with [] => Some x | _ => None end.
 
-Definition of_json (v : json) : option obs_state :=
-  do top <- as_obj v;
-  do (pg, top) <- field "program" top; do pg <- as_obj pg;
-  do (inst, top) <- field "instance" top; do inst <- as_obj inst;
-  do _ <- nil_end top tt;
-  (* program *)
+Definition program_of (pg : list (chars * json)) : option (string * string * string * chars) :=
   do (ver, pg) <- field "version" pg; do ver <- as_string ver;
   do (bc, pg) <- field "build_commit" pg; do bc <- as_string bc;
   do (bd, pg) <- field "build_commit_date" pg; do bd <- as_string bd;
   do (up, pg) <- field "uptime_seconds" pg;
   do up <- match up with JFloat t => Some t | JInt z => Some (print_int z) | _ => None end;
-  do _ <- nil_end pg tt;
-  (* instance *)
-  do (dd, inst) <- field "default_ds" inst; do dd <- as_obj dd;
-  do (cd, inst) <- field "current_ds" inst; do cd <- as_obj cd;
-  do (pa, inst) <- field "parent_ds" inst; do pa <- as_obj pa;
-  do (tp, inst) <- field "time_properties_ds" inst; do tp <- as_obj tp;
-  do (pt, inst) <- field "path_trace_ds" inst; do pt <- as_obj pt;
-  do (po, inst) <- field "port_ds" inst; do po <- as_arr po;
-  do _ <- nil_end inst tt;
-  (* default_ds *)
+  nil_end pg (ver, bc, bd, up).
+
+Definition default_of (dd : list (chars * json))
+  : option (list Z * Z * clock_quality * Z * Z * Z * bool * Z) :=
   do (d1, dd) <- field "clock_identity" dd; do d1 <- as_bytes8 d1;
   do (d2, dd) <- field "number_ports" dd; do d2 <- as_int (rng_u 16) d2;
   do (d3, dd) <- field "clock_quality" dd; do d3 <- cq_of d3;
@@ -519,37 +546,67 @@ Definition of_json (v : json) : option obs_state :=
   do (d5, dd) <- field "priority_2" dd; do d5 <- as_int (rng_u 8) d5;
   do (d6, dd) <- field "domain_number" dd; do d6 <- as_int (rng_u 8) d6;
   do (d7, dd) <- field "slave_only" dd; do d7 <- as_bool d7;
-  do (d8, dd) <- field "sdo_id" dd; do d8 <- as_int (fun z => (0 <=? z) && (z <=? 4095)) d8;
-  do _ <- nil_end dd tt;
-  (* current_ds *)
+  do (d8, dd) <- field "sdo_id" dd; do d8 <- as_int sdo_ok d8;
+  nil_end dd (d1, d2, d3, d4, d5, d6, d7, d8).
+
+Definition current_of (cd : list (chars * json)) : option (Z * Z * Z) :=
   do (c1, cd) <- field "steps_removed" cd; do c1 <- as_int (rng_u 16) c1;
   do (c2, cd) <- field "offset_from_master" cd; do c2 <- as_int (rng_i 128) c2;
   do (c3, cd) <- field "mean_delay" cd; do c3 <- as_int (rng_i 128) c3;
-  do _ <- nil_end cd tt;
-  (* parent_ds *)
+  nil_end cd (c1, c2, c3).
+
+Definition parent_of (pa : list (chars * json))
+  : option (port_identity * list Z * clock_quality * Z * Z) :=
   do (p1, pa) <- field "parent_port_identity" pa; do p1 <- pi_of p1;
   do (p2, pa) <- field "grandmaster_identity" pa; do p2 <- as_bytes8 p2;
   do (p3, pa) <- field "grandmaster_clock_quality" pa; do p3 <- cq_of p3;
   do (p4, pa) <- field "grandmaster_priority_1" pa; do p4 <- as_int (rng_u 8) p4;
   do (p5, pa) <- field "grandmaster_priority_2" pa; do p5 <- as_int (rng_u 8) p5;
-  do _ <- nil_end pa tt;
-  (* time_properties_ds *)
-  do (t1, tp) <- field "current_utc_offset" tp;
-  do t1 <- match t1 with JNull => Some None
-                       | JInt z => if rng_i 16 z then Some (Some z) else None
-                       | _ => None end;
+  nil_end pa (p1, p2, p3, p4, p5).
+
+Definition utc_of (v : json) : option (option Z) :=
+  match v with
+  | JNull => Some None
+  | JInt z => if rng_i 16 z then Some (Some z) else None
+  | _ => None
+  end.
+
+Definition tprops_of (tp : list (chars * json))
+  : option (option Z * leap * bool * bool * bool * tsource) :=
+  do (t1, tp) <- field "current_utc_offset" tp; do t1 <- utc_of t1;
   do (t2, tp) <- field "leap_indicator" tp; do t2 <- leap_of t2;
   do (t3, tp) <- field "time_traceable" tp; do t3 <- as_bool t3;
   do (t4, tp) <- field "frequency_traceable" tp; do t4 <- as_bool t4;
   do (t5, tp) <- field "ptp_timescale" tp; do t5 <- as_bool t5;
   do (t6, tp) <- field "time_source" tp; do t6 <- ts_of t6;
-  do _ <- nil_end tp tt;
-  (* path_trace_ds *)
+  nil_end tp (t1, t2, t3, t4, t5, t6).
+
+Definition ptrace_of (pt : list (chars * json)) : option (list (list Z) * bool) :=
   do (l1, pt) <- field "list" pt; do l1 <- as_arr l1; do l1 <- all_some (map as_bytes8 l1);
   do (l2, pt) <- field "enable" pt; do l2 <- as_bool l2;
-  do _ <- nil_end pt tt;
-  (* ports *)
-  do po <- all_some (map port_of po);
+  nil_end pt (l1, l2).
+
+Definition instance_of (inst : list (chars * json)) :=
+  do (dd, inst) <- field "default_ds" inst; do dd <- as_obj dd; do dd <- default_of dd;
+  do (cd, inst) <- field "current_ds" inst; do cd <- as_obj cd; do cd <- current_of cd;
+  do (pa, inst) <- field "parent_ds" inst; do pa <- as_obj pa; do pa <- parent_of pa;
+  do (tp, inst) <- field "time_properties_ds" inst; do tp <- as_obj tp; do tp <- tprops_of tp;
+  do (pt, inst) <- field "path_trace_ds" inst; do pt <- as_obj pt; do pt <- ptrace_of pt;
+  do (po, inst) <- field "port_ds" inst; do po <- as_arr po; do po <- all_some (map port_of po);
+  nil_end inst (dd, cd, pa, tp, pt, po).
+
+Definition of_json (v : json) : option obs_state :=
+  do top <- as_obj v;
+  do (pg, top) <- field "program" top; do pg <- as_obj pg; do pg <- program_of pg;
+  do (inst, top) <- field "instance" top; do inst <- as_obj inst; do inst <- instance_of inst;
+  do _ <- nil_end top tt;
+  let '(ver, bc, bd, up) := pg in
+  let '(dd, cd, pa, tp, pt, po) := inst in
+  let '(d1, d2, d3, d4, d5, d6, d7, d8) := dd in
+  let '(c1, c2, c3) := cd in
+  let '(p1, p2, p3, p4, p5) := pa in
+  let '(t1, t2, t3, t4, t5, t6) := tp in
+  let '(l1, l2) := pt in
   Some (mkObs ver bc bd up d1 d2 d3 d4 d5 d6 d7 d8 c1 c2 c3 p1 p2 p3 p4 p5
               t1 t2 t3 t4 t5 t6 l1 l2 po).
 
@@ -588,7 +645,7 @@ Definition wf_state (s : obs_state) : bool :=
   && float_token (pg_uptime s)
   && wf_bytes8 (dd_identity s) && rng_u 16 (dd_number_ports s) && wf_cq (dd_quality s)
   && rng_u 8 (dd_p1 s) && rng_u 8 (dd_p2 s) && rng_u 8 (dd_domain s)
-  && ((0 <=? dd_sdo s) && (dd_sdo s <=? 4095))
+  && sdo_ok (dd_sdo s)
   && rng_u 16 (cd_steps s) && rng_i 128 (cd_offset s) && rng_i 128 (cd_delay s)
   && wf_pi (pa_port s) && wf_bytes8 (pa_gm_identity s) && wf_cq (pa_gm_quality s)
   && rng_u 8 (pa_gm_p1 s) && rng_u 8 (pa_gm_p2 s)
